@@ -143,3 +143,95 @@ def const_list_through_alias_in_with(a: fp.Real):
     return r
 
 ALL += [impure_call, loop_var_leak, signed_zero_meet, const_list_through_callee, const_list_through_alias_in_with]
+
+# ---------------------------------------------------------------------------------------------------------
+# shapes added with the xgen upgrade: binders that re-use copied names, non-static contexts, merges of merges
+
+@fp.fpy
+def shadow_tuple_target(a: fp.Real, b: fp.Real, xs: list[fp.Real]):
+    t = a
+    u = b
+    acc = 0.0
+    for b, a in enumerate(xs):
+        acc = acc * 2 + t * a + u * b
+    return (acc, t, u, a, b)
+
+@fp.fpy
+def shadow_in_nested_comp(a: fp.Real, xs: list[fp.Real]):
+    t = a
+    zs = [sum([t * a + y for a in xs]) for y in xs]
+    return (zs, a)
+
+@fp.fpy
+def dyn_ctx_consts(c: fp.Context, p: fp.Real, x: fp.Real):
+    with fp.FP16:
+        u = 1 / 3
+        with c:
+            v = 1 / 3 + 0.1
+            with fp.MPFloatContext(p, fp.RM.RTZ):
+                w = 2 / 3
+        z = 1 / 3
+    return (u, v, w, z, x * v)
+
+@fp.fpy(ctx=fp.BF16)
+def pinned_outer_dyn_inner(c: fp.Context, x: fp.Real):
+    a = 0.1 + 0.2
+    with c:
+        b = 0.1 + 0.2
+        s = -0.0 + 0
+    return (a, b, s, x + b)
+
+@fp.fpy
+def merge_chain_pairs(a: fp.Real, b: fp.Real, f: bool, g: bool):
+    lo = a
+    hi = b
+    n = 0
+    if f:
+        (lo, (hi, n)) = (hi, (lo, n + 1))
+    if g:
+        n = n + 2
+        if a < b:
+            hi = 0
+    return (lo, hi, n)
+
+@fp.fpy
+def running_extreme(xs: list[fp.Real]):
+    m = 0.0
+    at = -1
+    i = 0
+    cnt = 0
+    for x in xs:
+        if abs(x) >= m:
+            (m, at) = (abs(x), i)
+            cnt = cnt + 1
+        with fp.INTEGER:
+            i = i + 1
+    return (m, at, cnt)
+
+@fp.fpy
+def while_swap(n: fp.Real):
+    a = 0
+    b = 1
+    k = 0
+    while k < n and k < 20:
+        if k > 2:
+            a, b = b, a + b
+        else:
+            (a, _) = (b, a)
+        with fp.INTEGER:
+            k = k + 1
+    return (a, b)
+
+@fp.fpy
+def ctx_value_reused(c: fp.Context, x: fp.Real):
+    with c as inner:
+        a = x / 3
+    with fp.FP64:
+        with inner:
+            b = 1 / 3
+        d = 1 / 3
+    return (a, b, d)
+
+ALL += [shadow_tuple_target, shadow_in_nested_comp, dyn_ctx_consts, pinned_outer_dyn_inner, merge_chain_pairs, running_extreme, while_swap, ctx_value_reused]
+META = {'dyn_ctx_consts': {'kinds': ['C', 'Q', 'R']}, 'pinned_outer_dyn_inner': {'kinds': ['C', 'R']}, 'merge_chain_pairs': {'kinds': ['R', 'R', 'B', 'B']},
+        'while_swap': {'kinds': ['I']}, 'ctx_value_reused': {'kinds': ['C', 'R']}}
